@@ -65,7 +65,9 @@ def r1_winner_filtered(ctx):
         rb_st = astx.stmt_of(rebuild[0], astx.parents(f.node)) if rebuild else None
         rb_name = rb_st.targets[0].id if isinstance(rb_st, ast.Assign) and isinstance(rb_st.targets[0], ast.Name) else None
         # the filter over the rebuilt ranking itself (whatever spelling its emptiness test has)
-        drop = [n for n in astx.walk_own(lp) if isinstance(n, astx.LCOMP) and len(n.generators) == 1 and rb_name is not None and astx.is_name(n.generators[0].iter, rb_name)
+        from vk.listform import _strip
+        drop = [n for n in astx.walk_own(lp) if isinstance(n, astx.LCOMP) and len(n.generators) == 1
+                and ((rb_name is not None and astx.is_name(n.generators[0].iter, rb_name)) or (rebuild and _strip(n.generators[0].iter) is rebuild[0]))
                 and n.generators[0].ifs and isinstance(n.generators[0].target, ast.Name) and astx.is_name(n.elt, n.generators[0].target.id)]
         good = False
         if len(drop) == 1:
@@ -145,6 +147,14 @@ def r4_random_rule(ctx):
             for n in astx.walk_own(lp):
                 if isinstance(n, ast.Assign) and isinstance(n.targets[0], ast.Subscript) and astx.is_name(n.targets[0].value, src) and astx.is_name(n.value, tgt):
                     filled = True
+                # ... or appended in one go: src.extend(units) / src += units
+                arg = None
+                if isinstance(n, ast.Call) and isinstance(n.func, ast.Attribute) and n.func.attr == "extend" and astx.is_name(n.func.value, src) and len(n.args) == 1:
+                    arg = n.args[0]
+                if isinstance(n, ast.AugAssign) and isinstance(n.op, ast.Add) and astx.is_name(n.target, src):
+                    arg = n.value
+                if arg is not None and (arg is mults[0] or (tgt is not None and astx.is_name(arg, tgt))):
+                    filled = True
         want = spec_rat(f"int({fpv}) - {thr}", int_atoms=lambda a: True)
         try:
             oksize = Normalizer(f.node, inline=False, int_atoms=lambda a: True).rat(size).equals(want)
@@ -177,6 +187,22 @@ def r4_random_rule(ctx):
         good = in_loop and no_exit and astx.raise_type(r) == "TypeError" and lp.body.index(first) == 0 and f"{b}.weight" in d and ("int(" in d or "floor(" in d)
     ctx.check(good, f, rs[0] if rs else lp, "non-integer weight => TypeError, tested first for every ballot", d,
               f"integrality guard `{d}` is not a TypeError raised first thing for every ballot of the argument")
+    # what happens to a ballot depends on that ballot (and the winner) alone: no store in the loop is governed by the
+    # ballot's position or by anything carried over from another ballot
+    own = {b, win, "math", "int", "float", "Fraction", "frozenset", "len", "isinstance", "set", "bool", "round", "abs"}
+    foreign = []
+    for n in astx.walk_own(lp):
+        is_store = (isinstance(n, ast.Assign) and isinstance(n.targets[0], ast.Subscript)) or isinstance(n, ast.AugAssign) \
+            or (isinstance(n, ast.Call) and isinstance(n.func, ast.Attribute) and n.func.attr in ("append", "extend"))
+        if not is_store:
+            continue
+        for t, _pol in astx.path_condition(f.node, n, pm):
+            if any(x is t for x in ast.walk(lp)):
+                extra = sorted(astx.free_names(t) - own)
+                if extra:
+                    foreign.append((n, astx.u(t), extra))
+    ctx.check(not foreign, f, foreign[0][0] if foreign else lp, "every ballot of the argument is treated by the same rule (no store depends on the ballot's position)", "",
+              f"`{astx.u(foreign[0][0])[:50]}` is governed by `{foreign[0][1]}` (mentions {foreign[0][2]}): some ballots are skipped or treated differently by position" if foreign else "")
     # non-winner-first ballots keep their weight
     others = [c for c in astx.calls_in(lp, "Ballot", own_only=False) if not (mults and c is mults[0].left.elts[0])]
     for c in others:
